@@ -678,6 +678,7 @@ def check_csv(ctx, produced):
            if ok_order else
            'blob_to_df does not iterate results_blob in order')
     check_column_names(ctx, fi, bd)
+    check_every_cell_has_row(ctx, bd)
     # confidence key choice in _run_mapping
     rm = db.fn('cli.from_specified_markers:_run_mapping')
     cfgm = cfg_of(rm)
@@ -852,3 +853,31 @@ def _lit(expr, fi, at):
         return ''.join(str(p.value) if isinstance(p, ast.Constant)
                        else '{}' for p in e.values)
     return type(e).__name__
+
+
+def check_every_cell_has_row(ctx, df_fn):
+    """blob_to_df appends one record per cell of the blob on every path"""
+    from ..rules import coverage as CV
+    rule = 'R-COVER/csv-row-per-cell'
+    cfg = cfg_of(df_fn)
+    loop = None
+    for n in ast.walk(df_fn.node):
+        if isinstance(n, ast.For):
+            t = Expander(df_fn).expand(
+                n.iter, [x for x in cfg.nodes_of(n) if x.kind == 'for'][0].id)
+            if t == ('param', 'results_blob'):
+                loop = n
+    if loop is None:
+        ctx.fail(rule, 'blob_to_df', df_fn.loc(),
+                 'no loop over results_blob found')
+        return
+
+    def act(node):
+        for c in cfg.calls_in(node):
+            if isinstance(c.func, ast.Attribute) and c.func.attr == 'append' \
+                    and CV.innermost_loop(c) is loop:
+                return True
+        return False
+    CV.check_cover(ctx, df_fn, rule, 'blob_to_df:rows', loop, act,
+                   what='cell', consequence='that cell has a JSON record '
+                   'but no CSV row')
